@@ -4,8 +4,8 @@
 //
 // A case is a construction sequence (AddLambdaNode / AddPassthroughNode / AddEdge /
 // AddBranch / Compile calls, through the public API only) over a fixed Go type universe:
-// three structs T1 T2 T3, map[string]any, interfaces I1 ⊂ I2 (I1 = {M1,M2}, I2 = {M2};
-// T1 implements both, T2 only I2), any.  Every case is built and compiled 5 times from
+// see universe.go (structs, unnamed and named map, pointer types, a generic struct; named
+// interfaces incl. two with the same method set and two instances of a generic interface; any).  Every case is built and compiled 5 times from
 // scratch; accepted graphs are run with a value of every dynamic type (nil included)
 // emitted by every producer whose static output type is an interface.
 package main
@@ -24,219 +24,16 @@ import (
 
 	"github.com/cloudwego/eino/compose"
 
+	"verif/harness/cmd/c07/u"
 	"verif/harness/lib"
 )
-
-// ---------------------------------------------------------------- universe
-
-type T1 struct{ X int }
-type T2 struct{ Y int }
-type T3 struct{ Z int }
-type I2 interface{ M2() }
-type I1 interface {
-	I2
-	M1()
-}
-
-func (T1) M1() {}
-func (T1) M2() {}
-func (T2) M2() {}
-
-type st1 struct{ N int }
-type st2 struct{ N int }
-
-var allTypes = []string{"T1", "T2", "T3", "M", "I1", "I2", "any"}
-var concTypes = []string{"T1", "T2", "T3", "M"}
-
-var rtypes = map[string]reflect.Type{
-	"T1": reflect.TypeOf(T1{}), "T2": reflect.TypeOf(T2{}), "T3": reflect.TypeOf(T3{}),
-	"M":  reflect.TypeOf(map[string]any{}),
-	"I1": reflect.TypeOf((*I1)(nil)).Elem(), "I2": reflect.TypeOf((*I2)(nil)).Elem(),
-	"any": reflect.TypeOf((*any)(nil)).Elem(),
-}
-
-func isIface(t string) bool { return t == "I1" || t == "I2" || t == "any" }
-
-func nameOfType(t reflect.Type) string {
-	if t == nil {
-		return ""
-	}
-	for n, rt := range rtypes {
-		if rt == t {
-			return n
-		}
-	}
-	return "?" + t.String()
-}
-
-func valueOf(d string) any {
-	switch d {
-	case "T1":
-		return T1{X: 1}
-	case "T2":
-		return T2{Y: 2}
-	case "T3":
-		return T3{Z: 3}
-	case "M":
-		return map[string]any{"k": 1}
-	case "nil":
-		return nil
-	}
-	panic("harness: bad dyn " + d)
-}
-
-func dynOf(v any) string {
-	switch v.(type) {
-	case nil:
-		return "nil"
-	case T1:
-		return "T1"
-	case T2:
-		return "T2"
-	case T3:
-		return "T3"
-	case map[string]any:
-		return "M"
-	}
-	return fmt.Sprintf("?%T", v)
-}
-
-// Go assignability of a dynamic value to a variable of static type t (by reflect)
-func dynAssignable(d, t string) bool {
-	if d == "nil" {
-		return isIface(t)
-	}
-	return rtypes[d].AssignableTo(rtypes[t])
-}
-
-// values a producer of static type t can emit
-func optionsFor(t string) []string {
-	if !isIface(t) {
-		return []string{t}
-	}
-	var out []string
-	for _, c := range concTypes {
-		if dynAssignable(c, t) {
-			out = append(out, c)
-		}
-	}
-	return append(out, "nil")
-}
-
-var coqTyMap = map[string]string{"T1": "(TConc 0)", "T2": "(TConc 1)", "T3": "(TConc 2)", "M": "(TConc 3)",
-	"I1": "(TIface 0)", "I2": "(TIface 1)", "any": "TAny"}
-var coqDynMap = map[string]string{"T1": "(DVal 0)", "T2": "(DVal 1)", "T3": "(DVal 2)", "M": "(DVal 3)", "nil": "DNil"}
 
 const coqUniv = "UNIV"
 
 // ---------------------------------------------------------------- generic glue
 
-// invoker runs the compiled graph on one input; stream = through Runnable.Stream (the
-// output stream is read to its end and must hold exactly one chunk) instead of Invoke
-type invoker func(ctx context.Context, input any, stream bool) (any, error)
-
-type graphH interface {
-	AddLambdaNode(key string, node *compose.Lambda, opts ...compose.GraphAddNodeOpt) error
-	AddPassthroughNode(key string, opts ...compose.GraphAddNodeOpt) error
-	AddEdge(s, e string) error
-	AddBranch(s string, b *compose.GraphBranch) error
-	compile(ctx context.Context, opts ...compose.GraphCompileOption) (invoker, error)
-}
-
-type gh[I, O any] struct{ *compose.Graph[I, O] }
-
-func (g gh[I, O]) compile(ctx context.Context, opts ...compose.GraphCompileOption) (invoker, error) {
-	r, err := g.Graph.Compile(ctx, opts...)
-	if err != nil {
-		return nil, err
-	}
-	return func(ctx context.Context, input any, stream bool) (any, error) {
-		var in I
-		if input != nil {
-			in = input.(I)
-		}
-		if !stream {
-			out, err := r.Invoke(ctx, in)
-			if err != nil {
-				return nil, err
-			}
-			return out, nil
-		}
-		sr, err := r.Stream(ctx, in)
-		if err != nil {
-			return nil, err
-		}
-		defer sr.Close()
-		var out any
-		n := 0
-		for {
-			v, err := sr.Recv()
-			if err == io.EOF {
-				break
-			}
-			if err != nil {
-				return nil, err
-			}
-			out = v
-			n++
-		}
-		if n != 1 {
-			return nil, fmt.Errorf("harness: stream delivered %d chunks", n)
-		}
-		return out, nil
-	}, nil
-}
-
-func mkGraph[I, O any](opts ...compose.NewGraphOption) graphH {
-	return gh[I, O]{compose.NewGraph[I, O](opts...)}
-}
-
-func mkLambda[I, O any](emit func() any) *compose.Lambda {
-	return compose.InvokableLambda(func(ctx context.Context, in I) (O, error) {
-		var out O
-		if v := emit(); v != nil {
-			out = v.(O)
-		}
-		return out, nil
-	})
-}
-
-func mkBranch[T any](choice []string, ends map[string]bool) *compose.GraphBranch {
-	return compose.NewGraphMultiBranch(func(ctx context.Context, in T) (map[string]bool, error) {
-		m := map[string]bool{}
-		for _, c := range choice {
-			m[c] = true
-		}
-		return m, nil
-	}, ends)
-}
-
-// state handlers: identity, or (ret says so) always the same value, which the generator
-// picks among the values of the handler's declared type (any value for an any handler)
-func mkPre[I, S any](ret func() (any, bool)) compose.GraphAddNodeOpt {
-	return compose.WithStatePreHandler(func(ctx context.Context, in I, s S) (I, error) {
-		if v, ok := ret(); ok {
-			var out I
-			if v != nil {
-				out = v.(I)
-			}
-			return out, nil
-		}
-		return in, nil
-	})
-}
-func mkPost[O, S any](ret func() (any, bool)) compose.GraphAddNodeOpt {
-	return compose.WithStatePostHandler(func(ctx context.Context, out O, s S) (O, error) {
-		if v, ok := ret(); ok {
-			var o O
-			if v != nil {
-				o = v.(O)
-			}
-			return o, nil
-		}
-		return out, nil
-	})
-}
+type invoker = u.Invoker
+type graphH = u.GraphH
 
 func retOf(h *H) func() (any, bool) {
 	if h.Ret == "" {
@@ -403,9 +200,9 @@ func build(c *Case, plans []runPlan, extra bool) (bo BuildObs) {
 	var gopts []compose.NewGraphOption
 	switch c.State {
 	case 1:
-		gopts = append(gopts, compose.WithGenLocalState(func(ctx context.Context) *st1 { return &st1{} }))
+		gopts = append(gopts, compose.WithGenLocalState(func(ctx context.Context) *u.St1 { return &u.St1{} }))
 	case 2:
-		gopts = append(gopts, compose.WithGenLocalState(func(ctx context.Context) *st2 { return &st2{} }))
+		gopts = append(gopts, compose.WithGenLocalState(func(ctx context.Context) *u.St2 { return &u.St2{} }))
 	}
 	cur := map[int]string{} // emitted value per node for the current run
 	var g graphH
@@ -450,7 +247,7 @@ func build(c *Case, plans []runPlan, extra bool) (bo BuildObs) {
 			case "compile":
 				ncb := &compileCB{}
 				var ni invoker
-				ni, err = g.compile(ctx, compose.WithGraphCompileCallbacks(ncb))
+				ni, err = g.Compile(ctx, compose.WithGraphCompileCallbacks(ncb))
 				if err == nil {
 					inv, cb = ni, ncb
 				}
@@ -477,7 +274,7 @@ func build(c *Case, plans []runPlan, extra bool) (bo BuildObs) {
 	var dagInv invoker
 	if extra {
 		lib.Recover(func() {
-			if di, err := g.compile(ctx, compose.WithNodeTriggerMode(compose.AllPredecessor)); err == nil {
+			if di, err := g.Compile(ctx, compose.WithNodeTriggerMode(compose.AllPredecessor)); err == nil {
 				dagInv = di
 			}
 		})
@@ -754,7 +551,7 @@ type engine struct{}
 func (engine) ID() string { return "C07" }
 func (engine) CoqHeader() string {
 	return "From Eino Require Import Base.Util Model.Types Model.TypeBuilder Corr.C07.\n" +
-		"Definition UNIV : univ := {| u_conc := [(0, [1; 2]); (1, [2]); (2, []); (3, [])]%N; u_iface := [(0, [1; 2]); (1, [2])]%N |}.\n"
+		coqUnivDef
 }
 func (engine) CoqCaseType() string { return "ccase" }
 
